@@ -11,7 +11,7 @@ from props import producer_lib as L
 from props import producer_check as PC
 
 THEOREMS = ["C09_trace_accepted", "C09_step_accepted", "C09_serial_batches", "C09_attempt_bound", "C09_backoff_first",
-            "C09_backoff_consecutive", "C09_retry_subset", "C09_retry_resends", "C09_acked_reported", "C09_order",
+            "C09_backoff_consecutive", "C09_retry_subset", "C09_retry_exact", "C09_retry_resends", "C09_acked_reported", "C09_order",
             "C09_order_step", "C09_one_payload", "C09_invariants_reachable", "C09_shrink_step", "C09_never_resent"]
 
 
